@@ -20,6 +20,7 @@ EXPLANATION = (
     "provably able to succeed without consuming, with no progress test, is reported (it can spin forever); loops with neither proof are listed as unproven. "
     "Not decided: that reported ranges lie inside the input (values), super-linear time."
     " (R6) nothing on the parse path iterates a std HashMap/HashSet (per-instance random order); (R7) a catch-all arm that panics on the result of a sub-parser is dead: the sub-parser can return no variant outside the arms' patterns (variant sets over the parser call graph)."
+    ' (R8) no ParseError is built with SourceRange::default(); (R9) format_error counts shown and remaining errors on the same list.'
 )
 IMPURE = re.compile(r"^std::fs::|^std::env::|^std::net::|^std::process::|^std::time::|^rand::|^getrandom::|^std::thread::|^std::io::stdin|^std::os::|^tokio::|^reqwest::")
 
